@@ -16,6 +16,7 @@ import (
 	"encoding/json"
 	"fmt"
 	"os"
+	"runtime"
 	"runtime/debug"
 	"sort"
 	"strings"
@@ -123,7 +124,6 @@ func newSemantic() *grammar.Parser {
 var stmtSeen sync.Map // rendered texts of grammar statements evaluated
 
 var plainPool = sync.Pool{New: func() interface{} { return newPlain() }}
-
 
 // ---- part 3: pumping (repetition counts far beyond the token bounds of parts 1 and 2) ---------------
 //
@@ -547,7 +547,8 @@ func observe(p *grammar.Parser, text string) obs {
 }
 
 type histCase struct {
-	History []string `json:"history"` // statements parsed first, in order, on the same parser
+	History []string `json:"history"`                                             // statements parsed first, in order, on the same parser
+	GC      bool     `json:"collect_garbage_before_the_last_statement,omitempty"` // the history's statements are dropped and a collection runs: the next statement may be allocated where an earlier one was
 	Then    string   `json:"then"`
 }
 
@@ -636,6 +637,9 @@ func checkHistory(c histCase, want obs) (ok bool, shape, detail string) {
 	p := newSemantic()
 	for _, a := range c.History {
 		parseOn(p, a)
+	}
+	if c.GC {
+		runtime.GC()
 	}
 	got := observe(p, c.Then)
 	switch {
@@ -1002,6 +1006,28 @@ func main() {
 	for _, b := range rejectedSeconds {
 		fresh[b] = observe(newSemantic(), b)
 	}
+	// the same pairs with a garbage collection between the two statements, on this goroutine alone: nothing refers to
+	// the first statement any more, so the second one may be allocated at its address (identity of a statement is not
+	// its address). Every first statement with three of the seconds (all of them on the thorough tier).
+	var gcPairs int
+	for i, a := range firsts {
+		if r.OutOfTime() {
+			break
+		}
+		n := 3
+		if r.Thorough() {
+			n = len(seconds)
+		}
+		for k := 0; k < n; k++ {
+			b := seconds[(i+k*7)%len(seconds)]
+			gcPairs++
+			c := histCase{History: []string{a}, Then: b, GC: true}
+			if ok, shape, d := checkHistory(c, fresh[b]); !ok {
+				r.Fail(common.Failure{Check: "history", Class: histClass(a, b), Shape: shape, Case: c, Detail: d})
+			}
+		}
+	}
+	r.Set("stateless_pairs_with_a_collection_in_between", gcPairs)
 	common.ParallelFor(len(firsts), func(i int) {
 		a := firsts[i]
 		for _, b := range seconds {
@@ -1009,7 +1035,7 @@ func main() {
 				return
 			}
 			atomic.AddInt64(&pairs, 1)
-			c := histCase{[]string{a}, b}
+			c := histCase{History: []string{a}, Then: b}
 			if ok, shape, d := checkHistory(c, fresh[b]); !ok {
 				r.Fail(common.Failure{Check: "history", Class: histClass(a, b), Shape: shape, Case: c, Detail: d})
 			}
@@ -1059,7 +1085,7 @@ func main() {
 		}
 		common.ParallelFor(len(trs), func(i int) {
 			t := trs[i]
-			c := histCase{[]string{t.a, t.b}, t.c}
+			c := histCase{History: []string{t.a, t.b}, Then: t.c}
 			if ok, shape, d := checkHistory(c, fresh[t.c]); !ok {
 				r.Fail(common.Failure{Check: "history", Class: histClassMulti([]string{t.a, t.b}, t.c), Shape: shape, Case: c, Detail: d})
 			}
